@@ -2639,6 +2639,34 @@ class Canon:
         self.get(k[, d]) is the mixin `try: return self[k] except KeyError: return d`, i.e. self.A.get(k[, d])"""
         if cls is None or not any(u(b_).split("[")[0].split(".")[-1] in ("Mapping", "MutableMapping") for k_ in cls.mro for b_ in k_.node.bases):
             return stmts
+        # iterating the views the mixin provides: values() is (self[k] for k in self), items() is ((k, self[k]) for k in self), keys() is self
+        if cls.find_method("__iter__")[1] is not None and cls.find_method("__getitem__")[1] is not None:
+            canon_ = self
+
+            def view(it):
+                if isinstance(it, ast.Call) and isinstance(it.func, ast.Attribute) and isinstance(it.func.value, ast.Name) and it.func.value.id == "self" \
+                        and not it.args and not it.keywords and it.func.attr in ("values", "items", "keys") and cls.find_method(it.func.attr)[1] is None:
+                    if it.func.attr == "keys":
+                        return ast.copy_location(ast.Name(id="self", ctx=ast.Load()), it)
+                    canon_._mm = getattr(canon_, "_mm", 0) + 1
+                    k_ = ast.Name(id=f"mk{canon_._mm}_", ctx=ast.Load())
+                    at = ast.Subscript(value=ast.Name(id="self", ctx=ast.Load()), slice=k_, ctx=ast.Load())
+                    elt = at if it.func.attr == "values" else ast.Tuple(elts=[copy.deepcopy(k_), at], ctx=ast.Load())
+                    return ast.fix_missing_locations(ast.copy_location(ast.GeneratorExp(elt=elt, generators=[ast.comprehension(
+                        target=ast.Name(id=k_.id, ctx=ast.Store()), iter=ast.Name(id="self", ctx=ast.Load()), ifs=[], is_async=0)]), it))
+                return it
+
+            class V(ast.NodeTransformer):
+                def visit_For(self, node):
+                    self.generic_visit(node)
+                    node.iter = view(node.iter)
+                    return node
+
+                def visit_comprehension(self, node):
+                    self.generic_visit(node)
+                    node.iter = view(node.iter)
+                    return node
+            stmts = [ast.fix_missing_locations(V().visit(s_)) for s_ in stmts]
         if cls.find_method("get")[1] is not None:
             return stmts
         _, gi = cls.find_method("__getitem__")
@@ -2958,6 +2986,26 @@ class Canon:
             return len(b_) == 1 and isinstance(b_[0], ast.Return) and b_[0].value is not None and norm.is_pure(b_[0].value, _PURE_EXT) \
                 and not m.decorator_list and not m.args.vararg and not m.args.kwarg and not any(isinstance(n, (ast.Yield, ast.YieldFrom)) for n in ast.walk(m))
 
+        local_imports = {}
+        for n in ast.walk(fn):
+            if isinstance(n, ast.ImportFrom) and n.level == 0 and n.module:
+                for a_ in n.names:
+                    local_imports[a_.asname or a_.name] = (n.module, a_.name)
+        foreign_cache = {}
+
+        def foreign(r, src_name):
+            """a function of another module with its names respelled the way this module writes them"""
+            src = self.prog.modules.get(src_name)
+            if src is None or src is module:
+                return r
+            if id(r) not in foreign_cache:
+                r2 = copy.deepcopy(r)
+                r2.body = self._respell(r2.body, src, module)
+                ast.fix_missing_locations(r2)
+                self._keepalive.append(r2)
+                foreign_cache[id(r)] = r2
+            return foreign_cache[id(r)]
+
         def explicit_super(m_, k_):
             """m_ (defined in class k_) with its zero-argument super() calls written out as super(k_, <its receiver>): they ascend
             from ITS class along the receiver's MRO, wherever the body ends up after inlining"""
@@ -3051,7 +3099,13 @@ class Canon:
                     except Exception:
                         r = None
                     if isinstance(r, ast.FunctionDef):
-                        return r, False, prep
+                        return foreign(r, module.imports[name].rpartition(".")[0]), False, prep
+                if name in local_imports and (name in inline or (name.startswith("_") and not name.startswith("__") and f"fn:{local_imports[name][1]}" not in known)):
+                    # imported inside the function (to break an import cycle): the function of that module, spelled as this module spells things
+                    src = self.prog.modules.get(local_imports[name][0])
+                    r = src.functions.get(local_imports[name][1]) if src is not None else None
+                    if isinstance(r, ast.FunctionDef):
+                        return foreign(r, src.name), False, prep
             return None
         return lookup
 
